@@ -157,23 +157,9 @@ def _chk_now_utc(ctx, px, items):
 
 
 def _chk_template_cache(ctx, px, items):
-    # value depends on key and on the loader's template listing only
-    f = px.func("nunavut.jinja.loaders", "DSDLTemplateLoader._type_to_template_internal")
-    stores = [n for n in ast.walk(f.node) if isinstance(n, ast.Assign) and "_type_to_template_lookup_cache[" in ast.unparse(n.targets[0])]
-    popped = {t.id for n in ast.walk(f.node) if isinstance(n, ast.Assign) and isinstance(n.value, ast.Call) and getattr(n.value.func, "attr", "") in ("pop", "popleft")
-              for t in n.targets if isinstance(t, ast.Name)}
-    tparam = f.node.args.args[2].arg if len(f.node.args.args) > 2 else "templates"
-    ok = len(stores) == 1 and isinstance(stores[0].targets[0], ast.Subscript) and isinstance(stores[0].targets[0].slice, ast.Name) \
-        and stores[0].targets[0].slice.id in popped and isinstance(stores[0].value, ast.Name)
-    if not ok:
-        return False, "cache is stored under something other than the class that named the template"
-    key, val = stores[0].targets[0].slice.id, stores[0].value.id
-    # the stored value comes from templates[<key class>.__name__]
-    src = [n for n in ast.walk(f.node) if isinstance(n, ast.Assign) and any(isinstance(t, ast.Name) and t.id == val for t in n.targets)
-           and isinstance(n.value, ast.Subscript) and isinstance(n.value.value, ast.Name) and n.value.value.id == tparam]
-    if not src or ast.unparse(src[0].value.slice) != f"{key}.__name__":
-        return False, "cached value is not the template named after the key class"
-    return True, "memo class -> template named after that class; function of the key and the loader's fixed listing"
+    # value depends on key and on the loader's template listing only (the rule is shared with C16)
+    from checks import C16
+    return C16.cache_discipline(px)
 
 
 def _chk_limit_empty_lines(ctx, px, items):
